@@ -83,6 +83,8 @@ static void c18_merge(Case& cs) {
   std::vector<Contribution> contrib;
   std::string desc;
   std::vector<std::string> good_paths;
+  std::vector<M::Preamble> earlier_pre;
+  bool near_dup = false;
   for (unsigned i = 0; i < n; i++) {
     Input in; Contribution cb;
     in.path = cs.scratch + "/in" + std::to_string(i) + ".cdns";
@@ -98,7 +100,29 @@ static void c18_merge(Case& cs) {
       filegen::Opts fo;
       fo.max_records = 4 + cs.size / 4;
       fo.priv_choice = false;
+      // block parameters: fresh, or those of an earlier input with exactly one member of one set changed
+      // (near-duplicate sets across inputs: a merge must keep them apart)
+      M::Preamble near;
+      if (!earlier_pre.empty() && c.coin()) {
+        near = earlier_pre[c.range(0, earlier_pre.size() - 1)];
+        M::BlockP& b = near.bps[c.range(0, near.bps.size() - 1)];
+        switch (c.range(0, 9)) {
+          case 0: b.sp.hints.other ^= 1ull << c.range(0, 1); break;
+          case 1: b.sp.hints.rr ^= 1ull << c.range(0, 1); break;
+          case 2: b.sp.hints.qr ^= 1ull << c.range(0, 17); break;
+          case 3: b.sp.hints.sig ^= 1ull << c.range(0, 16); break;
+          case 4: b.sp.tps = b.sp.tps == 1000 ? 1000000 : 1000; break;
+          case 5: b.sp.max_items = b.sp.max_items + 1; break;
+          case 6: b.sp.opcodes.push_back(c.range(0, 255)); break;
+          case 7: if (b.sp.flags.has) b.sp.flags.has = false; else b.sp.flags.set(1); break;
+          case 8: if (b.has_cp) { b.has_cp = false; b.cp = M::CollP(); } else { b.has_cp = true; b.cp.snaplen.set(65535); } break;
+          default: break;   // identical parameters in two inputs
+        }
+        fo.preset = &near;
+        near_dup = true;
+      }
       filegen::Result fr = filegen::make(c, cs.scratch, fo);
+      earlier_pre.push_back(fr.pre);
       cref::Node root; std::string err;
       if (!cref::parse_all(fr.bytes, root, err)) { cs.st.cnt("blocked:generated_file_not_well_formed"); return; }
       // version: mostly the default so that inputs are compatible; sometimes different / private absent
@@ -204,6 +228,7 @@ static void c18_merge(Case& cs) {
   cs.st.cls("inputs:" + std::to_string(n));
   for (auto& cb : contrib) cs.st.cls("input_kind:" + cb.kind.substr(0, cb.kind.find('@')));
   if (expect.empty()) cs.st.cls("expected_empty_output");
+  if (near_dup) cs.st.cls("near_duplicate_parameter_sets");
   cs.st.cnt("blocks_compared", expect.size());
 }
 
